@@ -78,8 +78,9 @@ var (
 const nNamespaces = 3
 
 // manager returns the process-wide Manager. It is created with no namespace;
-// every case replaces the complete user table (all nNamespaces namespaces are
-// re-prepared and committed), so no state of an earlier case survives. The
+// every case replaces the complete user table (every namespace is deleted, then
+// the case's namespaces are prepared and committed in order n0, n1, n2), so no
+// state of an earlier case survives. The
 // namespaces have one slice without a master address: no backend is contacted.
 func manager() (*server.Manager, error) {
 	mgrOnce.Do(func() {
@@ -97,7 +98,14 @@ const (
 
 func nsName(i int) string { return fmt.Sprintf("n%d", i) }
 
+var installed string // signature of the user table currently installed in mgr
+
 func installUsers(m *server.Manager, target, other []string) error {
+	sig := fmt.Sprintf("%q|%q", target, other)
+	if sig == installed {
+		return nil // the table is a pure function of (target, other); authentication never changes it
+	}
+	installed = "?"
 	// Empty the table first: re-preparing a namespace while another one still holds the
 	// same user+password key (left by the previous case) would leave a stale password
 	// behind (UserManager keys are only unique within one consistent configuration).
@@ -109,7 +117,7 @@ func installUsers(m *server.Manager, target, other []string) error {
 	if m.CheckUser(targetUser) || m.CheckUser(otherUser) {
 		return fmt.Errorf("user table not empty after deleting every namespace")
 	}
-	for i := 0; i < nNamespaces; i++ {
+	for i := 0; i < nNamespaces && (i < len(target) || i < len(other)); i++ {
 		ns := &models.Namespace{Name: nsName(i), DefaultSlice: "s0", Slices: []*models.Slice{{Name: "s0"}}}
 		if i < len(target) {
 			ns.Users = append(ns.Users, &models.User{UserName: targetUser, Password: target[i], Namespace: ns.Name, RWFlag: models.ReadWrite})
@@ -124,6 +132,7 @@ func installUsers(m *server.Manager, target, other []string) error {
 			return err
 		}
 	}
+	installed = sig
 	return nil
 }
 
@@ -236,14 +245,71 @@ func genEntries(t *rapid.T, name string, min, max int) []entry {
 	return es
 }
 
-func genAuth(t *rapid.T) authCase {
+// tableCase is what rapid generates: one user table and several handshakes
+// against it (installing a table costs two orders of magnitude more than a
+// decision). Every handshake is judged on its own by checkAuth.
+type attempt struct {
+	Salt   []byte   `json:"salt"`
+	Plugin string   `json:"plugin"`
+	Resp   respSpec `json:"resp"`
+}
+
+type tableCase struct {
+	Target   []entry   `json:"target"`
+	Other    []entry   `json:"other"`
+	Attempts []attempt `json:"attempts"`
+}
+
+func genTable(t *rapid.T) tableCase {
+	var c tableCase
+	c.Target = genEntries(t, "t", 1, nNamespaces)
+	c.Other = genEntries(t, "o", 0, 2)
+	n := rapid.IntRange(1, 10).Draw(t, "attempts")
+	for i := 0; i < n; i++ {
+		a := genAuth(t, c.Target)
+		c.Attempts = append(c.Attempts, attempt{Salt: a.Salt, Plugin: a.Plugin, Resp: a.Resp})
+	}
+	return c
+}
+
+func checkTable(c tableCase, rec *pbt.Recorder) (o pbt.Outcome) {
+	if len(c.Attempts) == 0 {
+		o.Skip = "no handshake in the case"
+		return
+	}
+	skipped := 0
+	for _, a := range c.Attempts {
+		r := checkAuth(authCase{Salt: a.Salt, Target: c.Target, Other: c.Other, Plugin: a.Plugin, Resp: a.Resp})
+		if r.Skip != "" {
+			skipped++
+			o.Labels = append(o.Labels, "skipped_attempt")
+			continue
+		}
+		o.Labels = append(o.Labels, r.Labels...)
+		o.NonTrivial = o.NonTrivial || r.NonTrivial
+		if r.Violation != "" {
+			o.Violation = r.Violation
+			o.Known, o.KnownWhat = "", ""
+			return
+		}
+		if r.Known != "" && o.Known == "" {
+			o.Known, o.KnownWhat = r.Known, r.KnownWhat // keep judging the remaining handshakes
+		}
+		o.Labels = append(o.Labels, "decision")
+	}
+	if skipped == len(c.Attempts) {
+		o.Skip = "every handshake of the case was malformed"
+	}
+	return
+}
+
+func genAuth(t *rapid.T, target []entry) authCase {
 	var c authCase
+	c.Target = target
 	c.Salt = rapid.SliceOfN(rapid.Byte(), 20, 20).Draw(t, "salt")
 	if rapid.IntRange(0, 9).Draw(t, "saltk") == 0 {
 		c.Salt = bytes.Repeat([]byte{rapid.SampledFrom([]byte{0, 0xff, 'a'}).Draw(t, "saltb")}, 20)
 	}
-	c.Target = genEntries(t, "t", 1, nNamespaces)
-	c.Other = genEntries(t, "o", 0, 2)
 	c.Plugin = rapid.SampledFrom([]string{"", "", "", "mysql_native_password", "caching_sha2_password"}).Draw(t, "plugin")
 	r := &c.Resp
 	r.Entry = rapid.IntRange(0, len(c.Target)-1).Draw(t, "entry")
@@ -580,9 +646,9 @@ func checkAuth(c authCase) (o pbt.Outcome) {
 }
 
 func TestC30Handshake(t *testing.T) {
-	pbt.Run(t, pbt.Spec{ID: "C30", Sub: "handshake", Quick: 8000, Thorough: 100000,
-		Rule: "20-byte salts; user u configured in 1-3 namespaces with passwords (pool of ASCII/multi-byte/binary/hash-looking strings, random strings, rarely empty) stored clear or as '*'+40 hex of SHA1(SHA1(p)) in upper/lower/mixed case; responses: native or sha2 proof of an entry, proof over the stored string itself, another user's proof, proof for another salt, SHA1(SHA1(p)), empty, raw bytes of length 0-255, each optionally with one bit flipped, truncated or extended; AuthPlugin empty/native/sha2; non-trivial = user has >= 2 stored passwords with at least one hashed, or the response length is not 0/20/32",
-		Floor: 0.4}, genAuth, checkAuth)
+	pbt.RunWith(t, pbt.Spec{ID: "C30", Sub: "handshake", Quick: 2500, Thorough: 40000,
+		Rule: "one user table and 1-10 handshakes against it (label 'decision' counts handshakes); 20-byte salts; user u configured in 1-3 namespaces with passwords (pool of ASCII/multi-byte/binary/hash-looking strings, random strings, rarely empty) stored clear or as '*'+40 hex of SHA1(SHA1(p)) in upper/lower/mixed case; responses: native or sha2 proof of an entry, proof over the stored string itself, another user's proof, proof for another salt, SHA1(SHA1(p)), empty, raw bytes of length 0-255, each optionally with one bit flipped, truncated or extended; AuthPlugin empty/native/sha2; non-trivial = user has >= 2 stored passwords with at least one hashed, or a response length is not 0/20/32",
+		Floor: 0.4}, genTable, checkTable)
 }
 
 // ---- the exported scramble functions ----
